@@ -100,6 +100,7 @@ type callRec struct {
 	called  Term
 	args    []Term
 	results []Term
+	seq     Term // position of the call in the unit's call sequence (program order); 0 = never called
 }
 
 type cellKey2 struct {
@@ -203,6 +204,7 @@ type Exec struct {
 	rootParams []Term
 	lemmaMode bool
 	initMode bool
+	callSeq  int
 }
 
 func newExec(e *Engine, unit string, props []string) *Exec {
@@ -930,6 +932,12 @@ func (x *Exec) mergeStates(sts []*State) *State {
 			return &callRec{called: tFalse, args: tmpl.args, results: tmpl.results}
 		}
 		nr.called, _ = pick(func(s *State) (Term, bool) { return get(s).called, true })
+		nr.seq, _ = pick(func(s *State) (Term, bool) {
+			if q := get(s).seq; q.S != "" {
+				return q, true
+			}
+			return intLit(0), true
+		})
 		for i := range tmpl.args {
 			i := i
 			nr.args[i], _ = pick(func(s *State) (Term, bool) { return get(s).args[i], true })
